@@ -246,13 +246,18 @@ def one_hostile_frame(rng, cfg):
     return rp.frame(mtype, body)
 
 
-def good_tail(rng, cfg, as4):
+def good_tail(rng, cfg, as4, ambiguous=False):
     out = []
     for _ in range(rng.randrange(1, 4)):
         k = rng.pick(["update", "update", "keepalive", "rr"])
         if k == "update":
             nl = [rng.pick(base.PREFIX_POOL) for _ in range(rng.randrange(1, 3))]
-            attrs = {"origin": rng.randrange(3), "as_path": [(2, [cfg["remote_as"] if (as4 or cfg["remote_as"] <= 65535) else 23456, 64999])],
+            second = 64999
+            if ambiguous and as4:
+                # a 4-octet AS number whose bytes, read with 2-octet AS numbers, are a further AS_PATH
+                # segment (02 01 xx xx): the same attribute bytes are well formed under both widths
+                second = 0x02010000 | rng.randrange(1, 65536)
+            attrs = {"origin": rng.randrange(3), "as_path": [(2, [cfg["remote_as"] if (as4 or cfg["remote_as"] <= 65535) else 23456, second])],
                      "next_hop": "10.0.0.2", "med": rng.randrange(100)}
             if cfg["remote_as"] == cfg["local_as"]:
                 attrs["local_pref"] = 100
@@ -323,7 +328,11 @@ class HostileCtx(object):
         n = rng.randrange(1, 5)
         frames = [one_hostile_frame(rng, cfg).hex() for _ in range(n)]
         as4 = peer_as4(cfg) and agent_as4(cfg)
-        tail = [t.hex() for t in good_tail(rng, cfg, as4)]
+        tail = [t.hex() for t in good_tail(rng, cfg, as4, ambiguous=rng.chance(0.5))]
+        if rng.chance(0.4):
+            # a known-good message of the tail, sent early as part of the burst (hostile by its moment,
+            # not by its bytes)
+            frames.insert(rng.randrange(len(frames) + 1), rng.pick(tail))
         coalesce = rng.chance(0.25)
         return ["hostile", state, frames, tail, coalesce]
 
@@ -356,6 +365,21 @@ class HostileCtx(object):
             ctl_reports.append(reports_in(wc, pos))
         ctl_alive = wc.state()
         self.account(wc)
+        # ---- control for the next-session leg: a fresh agent, first session, Established, tail only
+        # (every control run comes BEFORE the main run: booting a World resets process-global state)
+        self.ctl_next = None
+        if cfg.get("next_session_tail"):
+            wn = World(cfg)
+            for o in reach_ops(cfg, "Established"):
+                wn.apply(o)
+            if wn.state() == "ESTABLISHED":
+                self.ctl_next = []
+                for t in tail_hex:
+                    pos = len(wn.log)
+                    wn.apply(["send", 0, t, []])
+                    drain_now(wn)
+                    self.ctl_next.append(reports_in(wn, pos))
+            self.account(wn)
         # ---- main run
         w = World(cfg)
         for o in reach_ops(cfg, state):
@@ -521,6 +545,8 @@ class HostileCtx(object):
                                         "attempt followed within idle_hold_time=%s s (state %s, %d calls pending)"
                                         % (cfg["idle_hold_time"], w.state(), len(w.reactor._calls)))
                     self.stats["second_reconnect_after_refusal"] += 1
+            if cfg.get("next_session_tail"):
+                self.next_session_tail(w, cfg, state, want, kinds, tail_hex, ctl_reports, ctl_alive, escapes)
         elif st == "CONNECT":
             # closed and already reconnecting (idle_hold_time 0): the attempt must exist and the old
             # connection must be closed or closing
@@ -532,6 +558,10 @@ class HostileCtx(object):
             if c0.state == "connected" and not c0.closing():
                 raise Violation("C10", "end-state", "reconnecting-with-old-connection-open",
                                 "agent is reconnecting but connection #%d is still open and not being closed" % cid)
+            if cfg.get("next_session_tail"):
+                while any(c.closing() for c in w.live_conns()):
+                    w.apply(["cdone", [i for i, c in enumerate(w.live_conns()) if c.closing()][0]])
+                self.next_session_tail(w, cfg, state, want, kinds, tail_hex, ctl_reports, ctl_alive, escapes)
         else:
             raise Violation("C10", "end-state", "ends-in-%s" % st, "unexpected state %s after the burst" % st)
         self.account(w)
@@ -609,6 +639,52 @@ def _late_close_end(self, w, cfg, state, kinds, escapes):
 
 
 
+def _next_session_tail(self, w, cfg, state, want, kinds, tail_hex, ctl_reports, ctl_alive, escapes):
+    """The session that received the hostile input is over and the agent is reconnecting: the NEXT
+    session is brought to Established and receives the known-good tail; its reports must equal those of
+    a control run that never saw the burst (nothing an earlier session received may change how these
+    are decoded)."""
+    pend = [c for c in w.live_conns() if c.state == "connecting"]
+    if not pend:
+        return
+    ctl = self.ctl_next
+    if ctl is None:
+        return
+    new_cid = pend[0].cid
+
+    def idx():
+        for i, c in enumerate(w.live_conns()):
+            if c.cid == new_cid:
+                return i
+        return None
+    pos = len(w.log)
+    w.apply(["conn_ok", idx()])
+    if idx() is not None:
+        w.apply(["send", idx(), cfg["peer_open"], []])
+    if idx() is not None:
+        w.apply(["send", idx(), rp.encode_keepalive().hex(), []])
+    drain_now(w)
+    escapes(pos, "next-session")
+    c = w.conns[new_cid]
+    if w.state() != "ESTABLISHED" or not c.readable():
+        self.stats["next_session_not_established"] += 1
+        return      # (C01/C02 judge re-establishment)
+    self.stats["next_session_tail_compared"] += 1
+    for i, t in enumerate(tail_hex):
+        if idx() is None or not w.conns[new_cid].readable():
+            break
+        pos = len(w.log)
+        w.apply(["send", idx(), t, []])
+        drain_now(w)
+        escapes(pos, "next-session-tail")
+        reps = reports_in(w, pos)
+        # (element 1 of a report is the connection number: the control run's is 0)
+        if [r[:1] + r[2:] for r in reps] != [r[:1] + r[2:] for r in ctl[i]]:
+            raise Violation("C10", "tail-unchanged", "%s/next-session-after-%s/tail-decoded-differently" % (state, kinds[-1] if kinds else "none"),
+                            "known-good message %s in the session AFTER the one that received the hostile burst was reported as %s; "
+                            "in the control run as %s" % (rp.describe(bytes.fromhex(t)), json.dumps(reps)[:300], json.dumps(ctl[i])[:300]))
+
+
 def dict_get(canon_dict, key):
     if isinstance(canon_dict, dict) and "__d" in canon_dict:
         for k, v in canon_dict["__d"]:
@@ -630,6 +706,7 @@ def agent_as4(cfg):
 
 
 HostileCtx.late_close_end = _late_close_end
+HostileCtx.next_session_tail = _next_session_tail
 
 
 class HostileProfile(BaseProfile):
@@ -639,8 +716,8 @@ class HostileProfile(BaseProfile):
             "as whole messages, UPDATE bodies, attribute values or NLRI -- and of reference encodings; random bodies; "
             "duplicated attributes / absurd length fields; occasionally a wrong header length) in OpenSent/OpenConfirm/"
             "Established, frame-per-chunk (75 %) or coalesced, then 1-3 known-good messages whose handler payloads are "
-            "compared with a control run; non-trivial = prefix reached the state; distinct = distinct (state, frame kinds)")
-    probes = ["second_reconnect_after_refusal", "late_close_variants", "late_close_survived", "hostile_frame:UPDATE", "hostile_frame:OPEN", "hostile_frame:NOTIFICATION", "hostile_frame:ROUTE-REFRESH",
+            "compared with a control run -- in the same session if it survived, and (50 %) in the NEXT session once the agent has reconnected; 40 % of bursts also carry a known-good tail message early; 50 % of tails use an AS_PATH that is well formed under both AS-number widths; non-trivial = prefix reached the state; distinct = distinct (state, frame kinds)")
+    probes = ["next_session_tail_compared", "second_reconnect_after_refusal", "late_close_variants", "late_close_survived", "hostile_frame:UPDATE", "hostile_frame:OPEN", "hostile_frame:NOTIFICATION", "hostile_frame:ROUTE-REFRESH",
               "hostile_frame:KEEPALIVE", "hostile_frame:bad_length", "malformed_update_reports",
               "update_frames_in_established", "tail_compared", "reconnect_after_close", "coalesced_bursts"]
 
@@ -653,6 +730,7 @@ class HostileProfile(BaseProfile):
         cfg["rib"] = rng.chance(0.3)
         cfg["late_close"] = rng.chance(0.3)
         cfg["refuse_first_reconnect"] = rng.chance(0.4)
+        cfg["next_session_tail"] = rng.chance(0.5)
         return cfg
 
     def new_ctx(self, cfg, tier):
